@@ -63,7 +63,7 @@ def probe(root, script, args=(), hashseed=0, timeout=120):
 def declared_types(files, n_families=4):
     """[(subpackage dotted path, class name)] for every enum/struct/packet of a tree (prelude included)."""
     out = []
-    all_files = {d: list(files.get(d, [])) for d in specs.FILES}
+    all_files = {d: list(files.get(d, [])) for d in list(specs.FILES) + ([""] if "" in files else [])}
     all_files["net"] = specs.prelude(n_families) + all_files["net"]
     for d, nodes in all_files.items():
         sub = genpipe.SUBPKG[d]
